@@ -33,6 +33,9 @@ pub enum Case {
     },
     /// `F call F` (a one-instruction loop) with a breakpoint on it, stepped `steps` times
     SelfCall { steps: Vec<u8>, predefined: bool },
+    /// `edits` successful breakpoint edits (`break add A`, `break remove A`, ...) within one pause -
+    /// around and beyond 2^16 of them - then two breakpoints in a loop and `continue`s
+    Churn { edits: u32 },
 }
 
 fn program_for(c: &Case) -> (Built, Vec<u8>) {
@@ -75,6 +78,18 @@ fn program_for(c: &Case) -> (Built, Vec<u8>) {
                 }
             }
             (built, input.clone())
+        }
+        Case::Churn { .. } => {
+            // start: r0 = 0; loop: r0 += 1; r1 += 1; r2 = r0 - 3 ...; brn loop; halt
+            let lines = vec![
+                Line::stmt(Some("start"), Stmt::new(Op::And, &[0, 0], Operand::Lit(crate::refasm::Lit::Dec(0)))),
+                Line::stmt(Some("again"), Stmt::new(Op::Add, &[0, 0], Operand::Lit(crate::refasm::Lit::Dec(1)))),
+                Line::stmt(None, Stmt::new(Op::Add, &[1, 1], Operand::Lit(crate::refasm::Lit::Dec(1)))),
+                Line::stmt(None, Stmt::new(Op::Add, &[2, 0], Operand::Lit(crate::refasm::Lit::Dec(-3)))),
+                Line::stmt(None, Stmt::new(Op::Br(4, false), &[], Operand::Label("again".into()))),
+                Line::stmt(None, Stmt::simple(Op::Halt)),
+            ];
+            (Built { program: Program { lines }, orig: 0x3000, stack: false, breaks: vec![] }, vec![])
         }
         Case::SelfCall { predefined, .. } => {
             let mut lines = vec![Line::stmt(None, Stmt::new(Op::And, &[0, 0], Operand::Lit(crate::refasm::Lit::Dec(0))))];
@@ -170,6 +185,18 @@ fn commands_for(c: &Case, p: &Prog) -> (Vec<Cmd>, Vec<u8>) {
     (cmds, aliases)
 }
 
+/// The alternating edits of a `Churn` case that cancel out (script lines).
+fn churn_prefix(c: &Case) -> Vec<String> {
+    let Case::Churn { edits } = c else { return vec![] };
+    let pairs = edits.saturating_sub(2) / 2;
+    let mut v = Vec::with_capacity(pairs as usize * 2);
+    for _ in 0..pairs {
+        v.push("break add x3002".to_string());
+        v.push("break remove x3002".to_string());
+    }
+    v
+}
+
 fn commands_for_raw(c: &Case, p: &Prog) -> (Vec<Cmd>, Vec<u8>) {
     match c {
         Case::Generated { cmds, .. } => (
@@ -194,6 +221,20 @@ fn commands_for_raw(c: &Case, p: &Prog) -> (Vec<Cmd>, Vec<u8>) {
                 .collect(),
             cmds.iter().map(|r| r.alias).collect(),
         ),
+        Case::Churn { edits } => {
+            let abs = |x: u16| crate::refdbg::Loc::Abs(x, 0);
+            let mut v = Vec::with_capacity(*edits as usize + 8);
+            // (`edits` counts every successful edit of the pause, the two final additions included.
+            // The alternations `break add x3002` / `break remove x3002` go into the script as they
+            // are - `churn_prefix` - without a register listing after each; an odd number of them
+            // leaves x3002 set, and that last addition is the first command the model sees)
+            if edits.saturating_sub(2) % 2 == 1 {
+                v.push(Cmd::BreakAdd(abs(0x3002)));
+            }
+            v.extend([Cmd::BreakAdd(abs(0x3001)), Cmd::BreakAdd(abs(0x3003)), Cmd::BreakList, Cmd::Continue, Cmd::Continue, Cmd::Continue, Cmd::Continue]);
+            let n = v.len();
+            (v, vec![0; n])
+        }
         Case::SelfCall { steps, predefined } => {
             let mut v = Vec::new();
             if !*predefined {
@@ -253,8 +294,13 @@ pub fn judge_case(c: &Case) -> Obs {
         lines.push("registers".into());
     }
     lines.push("exit".into());
+    let prefix = churn_prefix(c);
+    let shown_script = if prefix.is_empty() { lines.join("\n") } else { format!("({} x) break add x3002 / break remove x3002\n{}", prefix.len() / 2, lines.join("\n")) };
+    if !prefix.is_empty() {
+        lines.splice(0..0, prefix);
+    }
     let script = lines.join("\n");
-    let shown = show_case(&p, &script, &input);
+    let shown = show_case(&p, &shown_script, &input);
     obs.show = Some(shown.clone());
     obs.key = hash_of(&(&p.text, &script, &input));
     let fuel = 8 * (model.dbg.executed + lines.len() as u64) + 64;
@@ -297,6 +343,9 @@ pub fn judge_case(c: &Case) -> Obs {
     }
     if matches!(c, Case::SelfCall { .. }) {
         obs.label("one-instruction-loop");
+    }
+    if matches!(c, Case::Churn { .. }) {
+        obs.label("tens-of-thousands-of-breakpoint-edits-in-one-pause");
     }
     if let Case::Generated { crowd, .. } = c {
         if let Some((k, in_source)) = crowd_of(*crowd) {
@@ -395,7 +444,7 @@ impl Prop for C11 {
         "C11"
     }
     fn rule(&self) -> &'static str {
-        "ProgGen programs with `.break` directives sprinkled by the generator plus 0-3 extra placements at any line position (before the first statement / .orig, between any two, after the last, doubled, on a labelled line), at default and non-default origins x histories of 1-13 commands over every resuming command, break add/remove (absolute, label+-offset, ^offset; extra weight on removing predefined ones), break list, the commands that move the PC while paused (goto, reset), aliasing scenarios (a second breakpoint 64*2^k words away from one in the code, added and removed again), and - a seventh of the sessions - a crowd of 15..18 / 31..34 / 63..66 / 100 / 257 breakpoints on consecutive words from the origin on (written as `.break` lines, or added at run time in a scattered order from the origin on or ending at a word of the program) before a shorter history that is followed by up to 40 further `continue`s among which one or two members of the crowd are removed (and one put back); plus the one-instruction loop `F call F` with a breakpoint on it. \
+        "ProgGen programs with `.break` directives sprinkled by the generator plus 0-3 extra placements at any line position (before the first statement / .orig, between any two, after the last, doubled, on a labelled line), at default and non-default origins x histories of 1-13 commands over every resuming command, break add/remove (absolute, label+-offset, ^offset; extra weight on removing predefined ones), break list, the commands that move the PC while paused (goto, reset), aliasing scenarios (a second breakpoint 64*2^k words away from one in the code, added and removed again), and - a seventh of the sessions - a crowd of 15..18 / 31..34 / 63..66 / 100 / 257 breakpoints on consecutive words from the origin on (written as `.break` lines, or added at run time in a scattered order from the origin on or ending at a word of the program) before a shorter history that is followed by up to 40 further `continue`s among which one or two members of the crowd are removed (and one put back); plus the one-instruction loop `F call F` with a breakpoint on it; plus 65,535 / 65,536 / 65,537 (thorough: also 131,072) successful breakpoint edits within one pause followed by two breakpoints in a loop (whatever counts the edits may wrap). \
          Oracle: RefDbg — pause before the marked instruction, resuming executes it once, it fires again on the next arrival (also when that is the very next instruction), removed breakpoints never pause: registers/PC/CC after every command, full final snapshot, executed-instruction count; `.break` occupies no memory (image equals the encoding without it) and marks the next statement (addresses recorded by the assembler); every `break list` equals the model's sorted duplicate-free list. \
          One case in six is run once more in the normal (non-minimal) output mode - tables, colours, errors rendered in full: it must end the same way, after the same number of instructions, with the same final machine. Non-trivial: a breakpoint is hit at least twice in the session, or a predefined breakpoint is removed and execution continues. Distinct = hash(source, script, input)."
     }
@@ -403,6 +452,14 @@ impl Prop for C11 {
         vec!["RefDbg (Appendix C); same exclusions as C10".into()]
     }
     fn run_worker(&self, ctx: &Ctx, rep: &mut Report) {
+        // counters that count breakpoint edits may wrap: 2^16 - 1, 2^16, 2^16 + 1, 2^17 edits in one pause
+        let churns: &[u32] = ctx.tier.pick(&[65_535u32, 65_536, 65_537][..], &[65_535u32, 65_536, 65_537, 131_072][..]);
+        for (i, edits) in churns.iter().copied().enumerate() {
+            if ctx.worker == (i * 3 + 1) % ctx.nworkers {
+                judge_one(ctx, rep, &Case::Churn { edits }, &mut |c| judge_case(c));
+            }
+        }
+        rep.exhaustive.push(format!("{churns:?} successful breakpoint edits within one pause (the last two add breakpoints in a loop), then four `continue`s"));
         let n = ctx.share(ctx.tier.pick(30_000, 300_000));
         drive(ctx, rep, "sessions", cases(), n, &mut |c: &Case| judge_case(c));
     }
